@@ -617,6 +617,8 @@ cands = {
  'trim_attribute_space': ({'trim_attribute_space': True}, {'trim_attribute_space': False}, '<a  x="1"\n   y="2"/>'),
  'body:non-ascii': ({'_body': '<p>Gr\u00fc\u00dfe</p>'}, {'_body': '<p>Gr\u00f6\u00dfe</p>'}, None),
  'filename:same-basename': ({'_paths': ['alpha/page.pt', 'beta/page.pt']}, {}, '<p>${1/0}</p>'),
+ 'filename:same-stem': ({'_paths': ['d/page.pt', 'd/page.html']}, {}, '<p>${1/0}</p>'),
+ 'filename:stem-is-prefix': ({'_paths': ['d/page.pt', 'd/page.pt.bak']}, {}, '<p>${1/0}</p>'),
  'body:crlf-xml': ({'_body': '<?xml version="1.0"?>\r\n<a>\r\n</a>'}, {'_body': '<?xml version="1.0"?>\n<a>\n</a>'}, None),
  'body:cr-xml': ({'_body': '<?xml version="1.0"?>\r<a>\r</a>'}, {'_body': '<?xml version="1.0"?>\n<a>\n</a>'}, None),
  'body:case': ({'_body': '<P>a</P>'}, {'_body': '<p>a</p>'}, None),
